@@ -117,38 +117,6 @@ Theorem polar_cone_certified : (Rabs (Q2R polar_cone_rad - PI / 36) <= / 2 ^ 57)
 Proof. exact polar_cone_certified. Qed.
 Print Assumptions polar_cone_certified.
 
-(* ---- formulas re-derived from the SOURCE TEXT on every run (harness/facts_m1src.py -> Gen/M1Source.v) ---------------
-   The hand-written model is proved equal to what a small fail-closed `ast` translator reads out of fprinter.py: the order
-   and composition of the atom invariants, signed->unsigned, the hash input layout, the sort keys and the level-cap test.
-   Editing one of these expressions in the source changes Gen/M1Source.v (or makes the translator raise) and breaks these. *)
-From E3FP Require Import Gen.M1Source.
-
-Theorem invariants_match_source : forall D (a : atom D),
-  daylight_inv D a = daylight_inv_src D a /\ rdkit_inv D a = rdkit_inv_src D a.
-Proof. intros; split; reflexivity. Qed.
-Print Assumptions invariants_match_source.
-
-Theorem unsigned_matches_source : forall a, unsigned32 a = signed_to_unsigned_src a fprinter_bits.
-Proof. intro a. reflexivity. Qed.
-Print Assumptions unsigned_matches_source.
-
-Theorem hash_input_matches_source : forall k prev flat, k :: prev :: flat = hash_input_src k prev flat.
-Proof. reflexivity. Qed.
-Print Assumptions hash_input_matches_source.
-
-Theorem sort_keys_match_source :
-  (forall x y : nb ZD, key2_leb (nb_key ZD x) (nb_key ZD y)
-                       = key2_leb (first_two_src (nb_conn x, nb_ident x, 0)) (first_two_src (nb_conn y, nb_ident y, 0))) /\
-  (forall x y : shell, zpair_leb (s_ident x, s_center x) (s_ident y, s_center y)
-                       = zpair_leb (shell_key_src (s_ident x) (s_center x)) (shell_key_src (s_ident y) (s_center y))).
-Proof. split; intros; reflexivity. Qed.
-Print Assumptions sort_keys_match_source.
-
-Theorem level_cap_matches_source : forall o st,
-  negb (o_level o =? -1) && (o_level o <=? st_k st) = level_cap_reached_src (st_k st) (o_level o).
-Proof. intros. unfold level_cap_reached_src. apply andb_comm. Qed.
-Print Assumptions level_cap_matches_source.
-
 (* ============ second half: iteration structure, duplicate removal, stopping rules, termination ============ *)
 (* C02 (fragment: the iteration-structure theorems) - to be merged into Properties/C02.v.
    Proofs: Proofs/E3FPDedup.v (dedup, sort, union, mask), Proofs/E3FPIterTerm.v (substructures, termination),
